@@ -147,38 +147,10 @@ static void hwv_pattr(FILE *f, hwloc_obj_t o)
   }
 }
 
-/* flags: bit0 = omit gp_index, bit1 = omit userdata presence */
-static void hwv_dump_topology(FILE *f, hwloc_topology_t t, int dflags)
+static void hwv_dump_objs(FILE *f, struct hwv_map *mp, int dflags)
 {
-  struct hwv_map m;
-  unsigned i, nobj;
-  int depth, d, ty;
-  static const int sdepths[] = { HWLOC_TYPE_DEPTH_NUMANODE, HWLOC_TYPE_DEPTH_BRIDGE, HWLOC_TYPE_DEPTH_PCI_DEVICE,
-                                 HWLOC_TYPE_DEPTH_OS_DEVICE, HWLOC_TYPE_DEPTH_MISC, HWLOC_TYPE_DEPTH_MEMCACHE };
-  hwv_map_init(&m);
-  hwv_enum(&m, hwloc_get_root_obj(t));
-  nobj = m.n;
-  depth = hwloc_topology_get_depth(t);
-  fprintf(f, "T flags=%lu depth=%d nobj=%u filters=", hwloc_topology_get_flags(t), depth, nobj);
-  for (ty = 0; ty < HWLOC_OBJ_TYPE_MAX; ty++) {
-    enum hwloc_type_filter_e fl = HWLOC_TYPE_FILTER_KEEP_ALL;
-    hwloc_topology_get_type_filter(t, (hwloc_obj_type_t)ty, &fl);
-    fprintf(f, "%s%d", ty ? "," : "", (int)fl);
-  }
-  fputs(" acpu=", f); hwv_pset(f, hwloc_topology_get_allowed_cpuset(t));
-  fputs(" anode=", f); hwv_pset(f, hwloc_topology_get_allowed_nodeset(t));
-  fputc('\n', f);
-  for (d = 0; d < depth + 6; d++) {
-    int dd = d < depth ? d : sdepths[d - depth];
-    unsigned w = hwloc_get_nbobjs_by_depth(t, dd), j;
-    fprintf(f, "L %d %d %u ", dd, (int)hwloc_get_depth_type(t, dd), w);
-    if (!w) fputc('-', f);
-    for (j = 0; j < w && j < HWV_MAXOBJ; j++) { if (j) fputc(',', f); hwv_pid(f, &m, hwloc_get_obj_by_depth(t, dd, j)); }
-    fputs(" probe=", f); hwv_pid(f, &m, hwloc_get_obj_by_depth(t, dd, w));
-    fputc('\n', f);
-  }
-  for (ty = 0; ty < HWLOC_OBJ_TYPE_MAX; ty++)
-    fprintf(f, "D %d %d\n", ty, hwloc_get_type_depth(t, (hwloc_obj_type_t)ty));
+  unsigned i, nobj = mp->n;
+#define m (*mp)
   for (i = 0; i < nobj; i++) {
     hwloc_obj_t o = (hwloc_obj_t)m.order[i];
     unsigned j;
@@ -214,6 +186,65 @@ static void hwv_dump_topology(FILE *f, hwloc_topology_t t, int dflags)
     if (dflags & 2) fputs(" ud=*", f); else fprintf(f, " ud=%d", o->userdata ? 1 : 0);
     fputc('\n', f);
   }
+#undef m
+}
+
+/* flags: bit0 = omit gp_index, bit1 = omit userdata presence */
+static void hwv_dump_topology(FILE *f, hwloc_topology_t t, int dflags)
+{
+  struct hwv_map m;
+  unsigned i, nobj;
+  int depth, d, ty;
+  static const int sdepths[] = { HWLOC_TYPE_DEPTH_NUMANODE, HWLOC_TYPE_DEPTH_BRIDGE, HWLOC_TYPE_DEPTH_PCI_DEVICE,
+                                 HWLOC_TYPE_DEPTH_OS_DEVICE, HWLOC_TYPE_DEPTH_MISC, HWLOC_TYPE_DEPTH_MEMCACHE };
+  hwv_map_init(&m);
+  hwv_enum(&m, hwloc_get_root_obj(t));
+  nobj = m.n;
+  depth = hwloc_topology_get_depth(t);
+  fprintf(f, "T flags=%lu depth=%d nobj=%u filters=", hwloc_topology_get_flags(t), depth, nobj);
+  for (ty = 0; ty < HWLOC_OBJ_TYPE_MAX; ty++) {
+    enum hwloc_type_filter_e fl = HWLOC_TYPE_FILTER_KEEP_ALL;
+    hwloc_topology_get_type_filter(t, (hwloc_obj_type_t)ty, &fl);
+    fprintf(f, "%s%d", ty ? "," : "", (int)fl);
+  }
+  fputs(" acpu=", f); hwv_pset(f, hwloc_topology_get_allowed_cpuset(t));
+  fputs(" anode=", f); hwv_pset(f, hwloc_topology_get_allowed_nodeset(t));
+  fputc('\n', f);
+  for (d = 0; d < depth + 6; d++) {
+    int dd = d < depth ? d : sdepths[d - depth];
+    unsigned w = hwloc_get_nbobjs_by_depth(t, dd), j;
+    fprintf(f, "L %d %d %u ", dd, (int)hwloc_get_depth_type(t, dd), w);
+    if (!w) fputc('-', f);
+    for (j = 0; j < w && j < HWV_MAXOBJ; j++) { if (j) fputc(',', f); hwv_pid(f, &m, hwloc_get_obj_by_depth(t, dd, j)); }
+    fputs(" probe=", f); hwv_pid(f, &m, hwloc_get_obj_by_depth(t, dd, w));
+    fputc('\n', f);
+  }
+  for (ty = 0; ty < HWLOC_OBJ_TYPE_MAX; ty++)
+    fprintf(f, "D %d %d\n", ty, hwloc_get_type_depth(t, (hwloc_obj_type_t)ty));
+  hwv_dump_objs(f, &m, dflags);
+  fputs("E\n", f);
+  hwv_map_free(&m);
+}
+
+/* Raw tree at a phase boundary of hwloc_discover() (hook HWLOC_VERIF): only the
+ * first_child/next_sibling chains and the object payloads are meaningful; no
+ * level lines are printed (levels do not exist yet). */
+static void hwv_dump_raw(FILE *f, hwloc_topology_t t, int phase)
+{
+  struct hwv_map m;
+  int ty;
+  hwv_map_init(&m);
+  hwv_enum(&m, hwloc_get_root_obj(t));
+  fprintf(f, "T flags=%lu depth=0 nobj=%u phase=%d filters=", hwloc_topology_get_flags(t), m.n, phase);
+  for (ty = 0; ty < HWLOC_OBJ_TYPE_MAX; ty++) {
+    enum hwloc_type_filter_e fl = HWLOC_TYPE_FILTER_KEEP_ALL;
+    hwloc_topology_get_type_filter(t, (hwloc_obj_type_t)ty, &fl);
+    fprintf(f, "%s%d", ty ? "," : "", (int)fl);
+  }
+  fputs(" acpu=", f); hwv_pset(f, hwloc_topology_get_allowed_cpuset(t));
+  fputs(" anode=", f); hwv_pset(f, hwloc_topology_get_allowed_nodeset(t));
+  fputc('\n', f);
+  hwv_dump_objs(f, &m, 0);
   fputs("E\n", f);
   hwv_map_free(&m);
 }
